@@ -479,6 +479,9 @@ class ProjectData(sc.prettyobj):
 
         """
 
+        if not self.pops:
+            raise InvalidDatabook('The databook does not define any populations (the "Population Definitions" sheet is missing or empty)')
+
         # Make sure that all of the quantities the Framework says we should read in have been read in, and that
         # those quantities all have some data values associated with them
         for pop in self.pops.values():
